@@ -427,6 +427,11 @@ notpkg:
 	v := b.v.t
 	if pt, ok := t.Underlying().(*types.Pointer); ok {
 		v = fx.load(ev.st, fx.ptrLoc(b.v, pt.Elem()))
+		if b.v.loc == nil && strings.HasSuffix(b.v.t, "?|") {
+			// a quantified pointer: instantiate on reads of its cell
+			hk, hs := fx.tm.heapKey(pt.Elem())
+			ev.trigger(b.v.t, "select", fx.heap(ev.st, hk, hs), "(Array Ref "+hs+")")
+		}
 		t = pt.Elem()
 	}
 	if isTimeTime(t) {
@@ -702,6 +707,21 @@ func (ev *Evaluator) call(x *ECall) SVal {
 				return SVal{v: Val{t: fmt.Sprintf("(> %s %s)", o, ev.pre.alloc)}, typ: boolT}
 			}
 			return SVal{v: Val{t: fmt.Sprintf("(<= %s %s)", o, ev.pre.alloc)}, typ: boolT}
+		case "isType", "asType":
+			// dynamic type test / unboxing of an interface value; the type is named by "pkgpath.Name" or "*pkgpath.Name"
+			v := ev.eval(x.Args[0])
+			tn, ok := x.Args[1].(*EStr)
+			if !ok {
+				unsupported("spec: %s(x, \"pkgpath.Type\")", x.Fun)
+			}
+			t := fx.eng.typeByName(tn.V)
+			if t == nil {
+				unsupported("spec: unknown type %q", tn.V)
+			}
+			if x.Fun == "isType" {
+				return SVal{v: Val{t: fmt.Sprintf("(= (itag %s) %d)", v.v.t, fx.tm.typeTag(t))}, typ: boolT}
+			}
+			return SVal{v: Val{t: fx.unbox(v.v.t, t)}, typ: t}
 		case "obj":
 			p := ev.eval(x.Args[0])
 			if fx.sortOfS(p) == "Slice" {
@@ -1011,6 +1031,30 @@ func (fr *Frame) lookupName(name string, st *State, li *loopInfo) (SVal, bool) {
 			unsupported("spec: $i outside a range-index loop")
 		}
 		return SVal{v: Val{t: "(+ " + fr.val(li.rangeIx).t + " 1)"}, typ: intT}, true
+	}
+	if li != nil {
+		// inside the body a parameter may have been re-assigned (it is then an ordinary SSA value / phi)
+		isParam := false
+		for _, p := range fr.fn.Params {
+			if p.Name() == name {
+				isParam = true
+			}
+		}
+		if isParam {
+			if v, ok := li.resolved[name]; ok && fr.evalAt == nil && li.resolved != nil {
+				return fr.nameVal(v, false, st), true
+			}
+			if v := fr.resolveDebugName(name, li); v != nil {
+				if li.resolved == nil {
+					li.resolved = map[string]ssa.Value{}
+					li.resolvedAddr = map[string]bool{}
+				}
+				if fr.evalAt == nil {
+					li.resolved[name] = v
+				}
+				return fr.nameVal(v, false, st), true
+			}
+		}
 	}
 	for _, p := range fr.fn.Params {
 		if p.Name() == name {
